@@ -640,6 +640,11 @@ func (m *monitors) onCampaign(r *replica, info server.CampaignInfo) {
 	if contains(v.NonVotings, r.id) || contains(v.Witnesses, r.id) || r.cfg.IsWitness {
 		m.violation("C18", "non-voter-campaigns", fmt.Sprintf("replica %d (non-voting or witness) launched a campaign in term %d", r.id, info.Term))
 	}
+	if !info.PreVote && r.inCCStep {
+		what := fmt.Sprintf("replica %d launches a campaign for term %d in a step-worker iteration that runs while a committed membership change is being applied: the state machine side is done, the raft core has not been given the change yet (node.ApplyConfigChange waits for raftMu)", r.id, info.Term)
+		m.violation("C07", "campaign-while-config-change-is-handed-over", what)
+		m.violation("C03", "campaign-while-config-change-is-handed-over", what)
+	}
 	// a replica that holds a committed but not yet applied membership change
 	// still operates under the old membership (changes take effect when
 	// applied): if it campaigns it can be elected by a quorum of that old
